@@ -40,7 +40,7 @@ m = {
     "engines": [
         {"name": "lean4-proof+correspondence", "path": "/verif/lean, /verif/harness, /verif/extract, /verif/bin/check",
          "serves_properties": sorted(props["claims"]),
-         "kind_free_text": "Lean 4 theorems over a hand-written executable model (lake project DSV); tie to /repo = fact extractor regenerating DSV/Generated/Facts.lean + differential correspondence between the compiled Lean model driver and the real Go code run in-process by the harness; per-property monitors search for a failing input"}
+         "kind_free_text": "Lean 4 theorems over a hand-written executable model (lake project DSV); tie to /repo = fact extractor regenerating DSV/Generated/Facts.lean + differential correspondence between the compiled Lean model driver and the real Go code run in-process by the harness; per-property monitors search for a failing input (also on results re-evaluated at the end of a run, sequentially and from 8 goroutines at once, and beside a race-instrumented run of the same case stream); source fingerprints of everything reachable from the anchor files re-open that search when the code changes"}
     ],
     "checks": checks,
     "not_applicable": props.get("not_applicable", []),
